@@ -7,7 +7,7 @@ let handle (line : string) : string =
   | [] -> ""
   | k :: r ->
     (match Hashtbl.find_opt Dcommon.handlers k with
-     | Some f -> f r
+     | Some f -> f (Dcommon.strip_keys r)
      | None -> "UNKNOWN-KIND " ^ k)
 
 let () =
